@@ -475,20 +475,38 @@ def result_edges(fn, bb):
     return out
 
 
+def return_aliases(fn):
+    """Locals whose whole value is moved/copied into the return place (`let r = Ok(x); r`, and the return place of a
+    helper inlined into this view): {0} ∪ {L : _a = use(L), a alias}."""
+    al = getattr(fn, "_ret_aliases", None) if False else None
+    out = {0}
+    changed = True
+    while changed:
+        changed = False
+        for bi, si, place, rv, line in fn.assigns():
+            if place[0] in out and not place[1] and rv["r"] == "use":
+                p = op_place(rv["o"])
+                if p is not None and not p[1] and p[0] not in out:
+                    out.add(p[0])
+                    changed = True
+    return out
+
+
 def ok_return_blocks(fn):
     """Blocks that assign `Result::Ok(..)` / `Option::Some` to the return place, and blocks that assign Err/
     propagate a residual."""
     oks, errs = [], []
+    ra = return_aliases(fn)
     for bi, b in enumerate(fn.blocks):
         if b["cl"]:
             continue
         for st in b["st"]:
-            if st[0] == "a" and st[1][0] == 0 and not st[1][1]:
+            if st[0] == "a" and st[1][0] in ra and not st[1][1]:
                 rv = st[2]
                 if rv["r"] == "agg" and rv.get("adt", "").endswith("result::Result"):
                     (oks if rv["var"] == "Ok" else errs).append(bi)
         t = b["t"]
-        if t["t"] == "call" and t["dest"][0] == 0 and not t["dest"][1]:
+        if t["t"] == "call" and t["dest"][0] in ra and not t["dest"][1]:
             d = t["fn"].get("d", "") if "d" in t["fn"] else ""
             if d.endswith("from_residual"):
                 errs.append(bi)
@@ -1081,3 +1099,106 @@ def near_origins(fn, operand, max_nodes=400):
                 if "p" in rv:
                     stack.append({"c": rv["p"]})
     return out
+
+
+def controlling_switch(fn, bb, max_hops=8):
+    """The nearest SwitchInt block that decides whether `bb` is entered: walk back through unique predecessors
+    (gotos, fall-through calls/drops).  Returns the switch block index or None."""
+    preds = fn.preds()
+    cur = bb
+    for _ in range(max_hops):
+        ps = [p for p in preds[cur] if not fn.blocks[p]["cl"]]
+        if len(ps) != 1:
+            return None
+        cur = ps[0]
+        if fn.blocks[cur]["t"]["t"] == "sw":
+            return cur
+    return None
+
+
+# ------------------------------------------------------------------ closed tag dispatch
+
+INT_TYS = ("u8", "u16", "u32", "u64", "i8", "i16", "i32", "i64", "usize")
+
+
+def tag_tests(fn, INT_TYS=INT_TYS):
+    """Tests of integer locals against constants.  Returns {local: {"explicit": [(bb, tgt)], "default": [(bb, tgt)], "n": values}}
+    from (a) SwitchInt on an integer local with explicit values, (b) Eq/Ne(local, const) feeding a bool switch."""
+    out = {}
+
+    def root(l, depth=0):
+        # look through plain copies / moves so `let code = tag; match code` is the same tag
+        for d in fn.defs().get(l, ()):
+            if d[0] == "assign" and not d[3][1] and d[4]["r"] == "use":
+                p = op_place(d[4]["o"])
+                if p is not None and not p[1] and depth < 4 and len(fn.defs().get(l, ())) == 1:
+                    return root(p[0], depth + 1)
+        return l
+    for bi, b in enumerate(fn.blocks):
+        if b["cl"]:
+            continue
+        t = b["t"]
+        if t["t"] == "sw":
+            p = op_place(t["o"])
+            if p is not None and not p[1] and fn.locals[p[0]] in INT_TYS and t["v"]:
+                r = out.setdefault(root(p[0]), {"explicit": [], "default": [], "n": set()})
+                for v, tgt in t["v"]:
+                    r["explicit"].append((bi, tgt))
+                    r["n"].add(v)
+                r["default"].append((bi, t["ow"]))
+    for (bb, kind, a, b2, res, line) in comparisons(fn):
+        if kind not in ("Eq", "Ne"):
+            continue
+        pa, pb = op_place(a), op_place(b2)
+        tag, const = None, None
+        if pa is not None and not pa[1] and "k" in b2 and fn.locals[pa[0]] in INT_TYS:
+            tag, const = pa[0], b2
+        elif pb is not None and not pb[1] and "k" in a and fn.locals[pb[0]] in INT_TYS:
+            tag, const = pb[0], a
+        if tag is None:
+            continue
+        for sw in switch_edges_on_local(fn, res):
+            r = out.setdefault(root(tag), {"explicit": [], "default": [], "n": set()})
+            eq_edge = (sw["sw"], sw["true"]) if kind == "Eq" else (sw["sw"], sw["false"])
+            ne_edge = (sw["sw"], sw["false"]) if kind == "Eq" else (sw["sw"], sw["true"])
+            r["explicit"].append(eq_edge)
+            r["default"].append(ne_edge)
+            r["n"].add(str(const.get("v", const.get("k"))))
+    return out
+
+
+def success_blocks(fn):
+    """Blocks that define a success value of the function: `Ok(..)`/`Some(..)` assigned to the return place, or a
+    non-Result/Option function's plain returns."""
+    oks, errs = ok_return_blocks(fn)
+    somes = []
+    ra = return_aliases(fn)
+    for bi, b in enumerate(fn.blocks):
+        if b["cl"]:
+            continue
+        for st in b["st"]:
+            if st[0] == "a" and st[1][0] in ra and not st[1][1] and st[2]["r"] == "agg" and st[2].get("adt", "").endswith("option::Option") and st[2].get("var") == "Some":
+                somes.append(bi)
+        t = b["t"]
+        if t["t"] == "call" and t["dest"][0] in ra and not t["dest"][1] and not (t["fn"].get("d", "") if "d" in t["fn"] else "").endswith("from_residual"):
+            # tail call whose result is returned as is (`self.read_hash().map(Some)`): may be a success
+            somes.append(bi)
+    return oks + somes
+
+
+def open_tag_dispatches(fn, tys=INT_TYS):
+    """Integer tags tested against constants in fn whose all-default path reaches a success value: an unlisted tag value
+    is accepted.  Returns [(local, sorted explicit values, witness path)]; [] = every dispatch is closed."""
+    tests = tag_tests(fn, tys)
+    if not tests:
+        return None
+    succ = success_blocks(fn)
+    res = []
+    for l, r in tests.items():
+        cut = set(r["explicit"]) - set(r["default"])
+        for (bb, tgt) in r["default"]:
+            w = fn.path([tgt], succ, avoid_edges=cut)
+            if w is not None:
+                res.append((l, sorted(r["n"]), [bb] + w))
+                break
+    return res
